@@ -263,3 +263,302 @@ Fixpoint attrnames_of (t : hnode) : list str :=
   match t with El _ _ attrs kids => map fst attrs ++ flat_map attrnames_of kids | _ => [] end.
 Fixpoint texts_of (t : hnode) : list str :=
   match t with El _ _ _ kids => flat_map texts_of kids | Txt s => [s] | Raw s => [s] end.
+
+(* ---------------------------------------------------------------------------------------------- *)
+(* 5. the tree view                                                                                  *)
+Inductive key := KInt (z : Z) | KStr (s : str).
+Definition key_eqb (a b : key) : bool :=
+  match a, b with
+  | KInt x, KInt y => Z.eqb x y
+  | KStr x, KStr y => str_eqb x y
+  | _, _ => false
+  end.
+Definition key_mem (k : key) (l : list key) : bool := existsb (key_eqb k) l.
+
+(* leaves: LNum = int/float/bool, LNone = None, LStr = str, LOther = any other object (shown through its repr) *)
+Inductive lkind := LNum | LNone | LStr | LOther.
+Definition is_str (lk : lkind) : bool := match lk with LStr => true | _ => false end.
+
+(* tname = type(value).__name__, cname = camel_to_snake(tname, '-'), raw = the string itself (LStr),
+   rep = what simple_value's value_repr() returns for a short string / a non-string,
+   fmt = what utils.format returns for the summary tooltip.  All five are arbitrary strings for the theorems. *)
+Inductive pv : Type :=
+| PLeaf (lk : lkind) (tname cname raw rep fmt : str)
+| PNode (is_seq : bool) (tname cname fmt : str) (items : list (key * pv)).
+
+Record opts := mkOpts {
+  o_name : option key;              (* name= *)
+  o_root_path : list key;           (* root_path= *)
+  o_enable_summary : option bool;   (* enable_summary= *)
+  o_summary_for_str : bool;         (* enable_summary_for_str= *)
+  o_max_len : Z;                    (* max_summary_len_for_str= *)
+  o_summary_tooltip : bool;         (* enable_summary_tooltip= *)
+  o_key_tooltip : bool;             (* enable_key_tooltip= *)
+  o_label_keys : bool;              (* key_style='label' (false: 'summary') *)
+  o_include : option (list key);    (* include_keys= (a list) *)
+  o_exclude : option (list key);    (* exclude_keys= (a list) *)
+  o_collapse : option Z;            (* collapse_level= *)
+  o_uncollapse : list (list key)    (* uncollapse= (a list of key paths) *)
+}.
+
+(* constants of the view *)
+Definition s_details := Eval compute in str_of "details".
+Definition s_summary := Eval compute in str_of "summary".
+Definition s_div := Eval compute in str_of "div".
+Definition s_span := Eval compute in str_of "span".
+Definition s_table := Eval compute in str_of "table".
+Definition s_tr := Eval compute in str_of "tr".
+Definition s_td := Eval compute in str_of "td".
+Definition s_open := Eval compute in str_of "open".
+Definition s_class := Eval compute in str_of "class".
+Definition s_pyglove := Eval compute in str_of "pyglove".
+Definition s_summary_name := Eval compute in str_of "summary-name".
+Definition s_summary_title := Eval compute in str_of "summary-title".
+Definition s_tooltip := Eval compute in str_of "tooltip".
+Definition s_simple_value := Eval compute in str_of "simple-value".
+Definition s_complex_value := Eval compute in str_of "complex-value".
+Definition s_object_key := Eval compute in str_of "object-key".
+Definition s_empty_container := Eval compute in str_of "empty-container".
+Definition s_str := Eval compute in str_of "str".
+Definition s_int := Eval compute in str_of "int".
+Definition s_dots := Eval compute in str_of "(...)".
+
+Definition vocabulary_tags : list str := [s_details; s_summary; s_div; s_span; s_table; s_tr; s_td].
+Definition vocabulary_opts : list str := [s_open].
+Definition vocabulary_attrs : list str := [s_class].
+
+(* decimal digits of an integer (str(int)) *)
+Fixpoint uint_digits (u : Decimal.uint) : str :=
+  match u with
+  | Decimal.Nil => []
+  | Decimal.D0 r => 48 :: uint_digits r | Decimal.D1 r => 49 :: uint_digits r
+  | Decimal.D2 r => 50 :: uint_digits r | Decimal.D3 r => 51 :: uint_digits r
+  | Decimal.D4 r => 52 :: uint_digits r | Decimal.D5 r => 53 :: uint_digits r
+  | Decimal.D6 r => 54 :: uint_digits r | Decimal.D7 r => 55 :: uint_digits r
+  | Decimal.D8 r => 56 :: uint_digits r | Decimal.D9 r => 57 :: uint_digits r
+  end.
+Definition dec_of_Z (z : Z) : str :=
+  match Z.to_int z with
+  | Decimal.Pos u => uint_digits u
+  | Decimal.Neg u => 45 :: uint_digits u
+  end.
+
+(* KeyPath.path_str *)
+Definition has_special (s : str) : bool := existsb (fun c => (c =? 91) || (c =? 93) || (c =? 46)) s.
+Fixpoint path_str_from (first : bool) (p : list key) : str :=
+  match p with
+  | [] => []
+  | k :: r =>
+    (match k with
+     | KStr s => if has_special s then [91] ++ s ++ [93] else (if first then [] else [46]) ++ s
+     | KInt z => [91] ++ dec_of_Z z ++ [93]
+     end) ++ path_str_from false r
+  end.
+Definition path_str (p : list key) : str := path_str_from true p.
+
+Definition name_text (k : key) : str :=       (* name shown in a summary: an int name n is shown as [n] *)
+  match k with KStr s => s | KInt z => [91] ++ dec_of_Z z ++ [93] end.
+Definition key_label (k : key) : str :=       (* str(root_path.key) *)
+  match k with KStr s => s | KInt z => dec_of_Z z end.
+Definition key_type (k : key) : str := match k with KStr _ => s_str | KInt _ => s_int end.
+
+(* Html.concate: flatten, drop duplicates (first occurrence wins), join with a space *)
+Definition str_mem (x : str) (l : list str) : bool := existsb (str_eqb x) l.
+Fixpoint dedup_acc (seen : list str) (l : list str) : list str :=
+  match l with
+  | [] => []
+  | x :: r => if str_mem x seen then dedup_acc seen r else x :: dedup_acc (x :: seen) r
+  end.
+Fixpoint join_sp (l : list str) : str :=
+  match l with [] => [] | [x] => x | x :: r => x ++ c_sp :: join_sp r end.
+Definition class_attr (l : list str) : list (str * str) := [(s_class, join_sp (dedup_acc [] l))].
+
+Definition tooltip_span (text : str) : hnode := El s_span [] (class_attr [s_tooltip]) [Txt text].
+
+Fixpoint is_prefix (p l : list key) : bool :=
+  match p, l with
+  | [], _ => true
+  | x :: p', y :: l' => key_eqb x y && is_prefix p' l'
+  | _, [] => false
+  end.
+Fixpoint assoc_key {A} (k : key) (l : list (key * A)) : option A :=
+  match l with [] => None | (k', a) :: r => if key_eqb k k' then Some a else assoc_key k r end.
+
+Definition cname_of (v : pv) : str := match v with PLeaf _ _ c _ _ _ => c | PNode _ _ c _ _ => c end.
+Definition fmt_of (v : pv) : str := match v with PLeaf _ _ _ _ _ f => f | PNode _ _ _ f _ => f end.
+Definition is_simple (v : pv) : bool := match v with PLeaf LOther _ _ _ _ _ => false | PLeaf _ _ _ _ _ _ => true | PNode _ _ _ _ _ => false end.
+(* make_title *)
+Definition title_of (v : pv) : str :=
+  match v with
+  | PLeaf LNum t _ _ _ _ | PLeaf LStr t _ _ _ _ => t
+  | PLeaf _ t _ _ _ _ => t ++ s_dots
+  | PNode _ t _ _ _ => t ++ s_dots
+  end.
+
+Section TreeView.
+  Variable o : opts.
+
+  (* HtmlTreeView.needs_summary (title=None) *)
+  Definition needs_summary (name : option key) (v : pv) : bool :=
+    match o_enable_summary o with
+    | Some b => b
+    | None =>
+      match v with
+      | PLeaf lk _ _ raw _ _ =>
+          if negb (o_summary_for_str o) && is_str lk then false
+          else match name with
+               | Some _ => true
+               | None => match lk with
+                         | LNum | LNone => false
+                         | LStr => negb (Z.of_nat (List.length raw) <=? o_max_len o)%Z
+                         | LOther => true
+                         end
+               end
+      | PNode _ _ _ _ _ => true
+      end
+    end.
+
+  (* HtmlTreeView.should_collapse (uncollapse given as a list of paths; KeyPathSet with include_intermediate) *)
+  Definition should_collapse (name : option key) (path : list key) (cl : option Z) (v : pv) : bool :=
+    match cl with
+    | None => false
+    | Some n =>
+        if (0 <? n)%Z then false
+        else if existsb (is_prefix path) (o_uncollapse o) then false
+        else match name with
+             | Some _ => negb (is_simple v)
+             | None => true
+             end
+    end.
+
+  (* HtmlTreeView.summary *)
+  Definition summary_el (name : option key) (path : list key) (v : pv) : hnode :=
+    El s_summary [] []
+      ((match name with
+        | Some k => [El s_div [] (class_attr [s_summary_name])
+                       (Txt (name_text k) :: (if o_key_tooltip o then [tooltip_span (path_str path)] else []))]
+        | None => []
+        end)
+       ++ [El s_div [] (class_attr [s_summary_title]) [Txt (title_of v)]]
+       ++ (if o_summary_tooltip o then [tooltip_span (fmt_of v)] else [])).
+
+  (* HtmlTreeView.object_key (+ its tooltip) *)
+  Definition key_cell (k : key) (cpath : list key) : list hnode :=
+    El s_span [] (class_attr [s_object_key; key_type k]) [Txt (key_label k)]
+    :: (if o_key_tooltip o then [tooltip_span (path_str cpath)] else []).
+
+  (* HtmlTreeView._render: summary + content (simple_value / complex_value) *)
+  Fixpoint tv (name : option key) (path : list key) (cl : option Z) (incl excl : option (list key)) (v : pv) {struct v} : hnode :=
+    let content :=
+      match v with
+      | PLeaf lk _ cname raw rep _ =>
+          El s_span [] (class_attr [s_simple_value; cname])
+             [Txt (if is_str lk then (if (Z.of_nat (List.length raw) <? o_max_len o)%Z then rep else raw) else rep)]
+      | PNode is_seq _ cname _ items =>
+          let cl' := option_map (fun n => (n - 1)%Z) cl in
+          let label := is_seq || o_label_keys o in
+          let rendered :=
+            (fix go (l : list (key * pv)) : list (key * hnode) :=
+               match l with
+               | [] => []
+               | (k, c) :: r =>
+                   let cpath := path ++ [k] in
+                   (k, if label
+                       then El s_tr [] [] [El s_td [] [] (key_cell k cpath); El s_td [] [] [tv None cpath cl' None None c]]
+                       else tv (Some k) cpath cl' None None c) :: go r
+               end) items in
+          let present := map fst items in
+          let order0 := match incl with None => present | Some l => filter (fun k => key_mem k present) l end in
+          let order := match excl with None => order0 | Some l => filter (fun k => negb (key_mem k l)) order0 end in
+          let kids := flat_map (fun k => match assoc_key k rendered with Some h => [h] | None => [] end) order in
+          El s_div [] (class_attr [s_complex_value; cname])
+             (match kids with
+              | [] => [El s_span [] (class_attr [s_empty_container]) []]
+              | _ => if label then [El s_table [] [] kids] else kids
+              end)
+      end in
+    if needs_summary name v
+    then El s_details (if should_collapse name path cl v then [] else [s_open]) (class_attr [s_pyglove; cname_of v])
+            [summary_el name path v; content]
+    else content.
+
+  Definition tree_view (v : pv) : hnode := tv (o_name o) (o_root_path o) (o_collapse o) (o_include o) (o_exclude o) v.
+End TreeView.
+
+(* ---------------------------------------------------------------------------------------------- *)
+(* 6. wire format
+   case ::= (0 opts pv)   -> (0 rendered)                 render (tree_view opts pv), code points
+          | (1 str)       -> (1 (tree ...)?)              parse_html str: () when rejected, ((tree ...)) otherwise
+          | (2 str)       -> (2 escaped unescaped ok)     escape str, unescape str, no_meta (escape str) as a boolean
+   key  ::= (0 z) | (1 str)
+   pv   ::= (0 lkind tname cname raw rep fmt) | (1 is_seq tname cname fmt ((key pv) ...))
+   opts ::= (name? root_path enable_summary? for_str max_len summary_tooltip key_tooltip label_keys include? exclude? collapse? uncollapse)
+   tree ::= (0 tag (opt ...) ((name value) ...) (tree ...)) | (1 text) | (2 raw)                                        *)
+Definition d_key (t : tr) : option key :=
+  match t with
+  | L [I 0%Z; I z] => Some (KInt z)
+  | L [I 1%Z; s] => do s' <- dstr s; Some (KStr s')
+  | _ => None
+  end.
+Definition d_lkind (t : tr) : option lkind :=
+  match t with
+  | I 0%Z => Some LNum | I 1%Z => Some LNone | I 2%Z => Some LStr | I 3%Z => Some LOther
+  | _ => None
+  end.
+Fixpoint d_pv (fuel : nat) (t : tr) : option pv :=
+  match fuel with
+  | O => None
+  | S f =>
+    match t with
+    | L [I 0%Z; lk; tn; cn; raw; rep; fmt] =>
+        do lk' <- d_lkind lk; do tn' <- dstr tn; do cn' <- dstr cn; do raw' <- dstr raw; do rep' <- dstr rep; do fmt' <- dstr fmt;
+        Some (PLeaf lk' tn' cn' raw' rep' fmt')
+    | L [I 1%Z; sq; tn; cn; fmt; L items] =>
+        do sq' <- dbool sq; do tn' <- dstr tn; do cn' <- dstr cn; do fmt' <- dstr fmt;
+        do items' <- dall (fun it => match it with
+                                     | L [k; c] => do k' <- d_key k; do c' <- d_pv f c; Some (k', c')
+                                     | _ => None
+                                     end) items;
+        Some (PNode sq' tn' cn' fmt' items')
+    | _ => None
+    end
+  end.
+Definition d_opts (t : tr) : option opts :=
+  match t with
+  | L [nm; rp; es; fs; ml; st; kt; lb; inc; exc; cl; unc] =>
+      do nm' <- dopt d_key nm; do rp' <- dlist d_key rp; do es' <- dopt dbool es; do fs' <- dbool fs; do ml' <- dZ ml;
+      do st' <- dbool st; do kt' <- dbool kt; do lb' <- dbool lb;
+      do inc' <- dopt (dlist d_key) inc; do exc' <- dopt (dlist d_key) exc; do cl' <- dopt dZ cl; do unc' <- dlist (dlist d_key) unc;
+      Some (mkOpts nm' rp' es' fs' ml' st' kt' lb' inc' exc' cl' unc')
+  | _ => None
+  end.
+
+Fixpoint e_hnode (t : hnode) : tr :=
+  match t with
+  | El tag opts attrs kids =>
+      L [I 0%Z; estr tag; elist estr opts; elist (epair estr estr) attrs; L (map e_hnode kids)]
+  | Txt s => L [I 1%Z; estr s]
+  | Raw s => L [I 2%Z; estr s]
+  end.
+
+Definition no_metab (l : str) : bool := forallb (fun c => negb (is_meta4 c)) l && amps_ok l.
+
+Definition run (c : tr) : tr :=
+  match c with
+  | L [I 0%Z; o; v] =>
+      match d_opts o, d_pv 100 v with
+      | Some o', Some v' => L [I 0%Z; estr (render (tree_view o' v'))]
+      | _, _ => ebad
+      end
+  | L [I 1%Z; s] =>
+      match dstr s with
+      | Some s' => L [I 1%Z; eopt (fun d => L (map e_hnode d)) (parse_html s')]
+      | None => ebad
+      end
+  | L [I 2%Z; s] =>
+      match dstr s with
+      | Some s' => L [I 2%Z; estr (escape s'); estr (unescape s'); ebool (no_metab (escape s'))]
+      | None => ebad
+      end
+  | _ => ebad
+  end.
